@@ -91,6 +91,29 @@ Load(h, slot) ==
   ELSE LET d == h.slots[slot] IN Ok([h EXCEPT !.m = d.m, !.cur = d.cur, !.others = d.others])
 Reset(h) == Ok([h EXCEPT !.m = S!Start, !.cur = DefaultFlow, !.others = <<>>])
 
+\* ---------------------------------------------------------------- evaluate_function
+\* The host runs a function of the story: a frame of its own kind is pushed on the current thread, the output so far is
+\* set aside, the function is continued line by line until it cannot continue, the lines are the text result, the
+\* returned value the value result; then the frame is popped and the output put back.  What the function did to
+\* globals, counts and sequence counters stays.  (C16)
+EvalBegin(h, f, args) ==
+  IF ~S!IsKnot(f) \/ S!Knot(f).kind # "function" THEN [h |-> h, res |-> "err", saved |-> <<>>]
+  ELSE LET fn == S!Knot(f)
+           temps == [x \in {fn.params[i] : i \in 1..Len(fn.params)} |->
+                       LET i == CHOOSE i \in 1..Len(fn.params) : fn.params[i] = x IN
+                       IF i <= Len(args) THEN args[i] ELSE S!I(0)]
+           act == [kind |-> "game", fr |-> <<S!Frame(fn.body)>>, temps |-> temps, fnStart |-> 0, fnStart0 |-> 0,
+                   cont |-> [mode |-> "game"], prev |-> <<>>]
+           m == h.m
+           m1 == [m EXCEPT !.out = <<>>, !.st = "run", !.safe = FALSE, !.ret = [t |-> "void"],
+                           !.th = << <<act>> \o Head(m.th) >> \o Tail(m.th)] IN
+       [h |-> [h EXCEPT !.m = m1], res |-> "ok", saved |-> [out |-> m.out, st |-> m.st, safe |-> m.safe]]
+
+EvalEnd(h, saved) ==
+  LET m == h.m
+      t == Head(m.th) IN
+  [h EXCEPT !.m = [m EXCEPT !.out = saved.out, !.st = saved.st, !.safe = saved.safe, !.th = <<Tail(t)>> \o Tail(m.th)]]
+
 \* ---------------------------------------------------------------- what the host sees
 Seen(h) ==
   LET m == h.m
